@@ -298,10 +298,10 @@ func (vc *FnVC) instr(ins ssa.Instruction, st *State) {
 		r := vc.newRef(st, "map")
 		vc.setCompFresh(st, mh, sto(vc.cur(st, mh), r, "((as const "+arraySort(ks, sBool)+") false)"))
 		vc.setCompFresh(st, mv, sto(vc.cur(st, mv), r, "((as const "+arraySort(ks, vs)+") "+vc.enc.zero(m.Elem())+")"))
-		vc.setCompFresh(st, "ML", sto(vc.cur(st, "ML"), r, "0"))
+		vc.setCompFresh(st, mlOf(mh), sto(vc.cur(st, mlOf(mh)), r, "0"))
 		vc.setTerm(x, r)
 		if privateMap(x) {
-			vc.privCells = append(vc.privCells, privCell{ref: r, comp: mh}, privCell{ref: r, comp: mv}, privCell{ref: r, comp: "ML"})
+			vc.privCells = append(vc.privCells, privCell{ref: r, comp: mh}, privCell{ref: r, comp: mv}, privCell{ref: r, comp: mlOf(mh)})
 		}
 	case *ssa.MakeSlice:
 		sl := x.Type().Underlying().(*types.Slice)
@@ -1011,16 +1011,16 @@ func (vc *FnVC) doMapUpdate(x *ssa.MapUpdate, st *State) {
 	}
 	fr := vc.frameCheck(st, mh, m)
 	has := sel(sel(vc.cur(st, mh), m), k)
-	ml := vc.cur(st, "ML")
+	ml := vc.cur(st, mlOf(mh))
 	if vc.coarseMapLen() {
 		// a function that builds a map with many conditional insertions (a marshaller): the exact
 		// element count (a chain of conditional increments) is what makes the solver search; keep
 		// only its bounds. Strictly weaker knowledge, hence sound.
 		l := vc.enc.freshConst("maplen", sInt)
 		vc.emit(and("(<= "+sel(ml, m)+" "+l+")", "(<= "+l+" (+ "+sel(ml, m)+" 1))", "(>= "+l+" 1)"))
-		vc.setCompF(st, "ML", sto(ml, m, l), fr)
+		vc.setCompF(st, mlOf(mh), sto(ml, m, l), fr)
 	} else {
-		vc.setCompF(st, "ML", sto(ml, m, ite(has, sel(ml, m), "(+ "+sel(ml, m)+" 1)")), fr)
+		vc.setCompF(st, mlOf(mh), sto(ml, m, ite(has, sel(ml, m), "(+ "+sel(ml, m)+" 1)")), fr)
 	}
 	vc.setCompF(st, mh, sto(vc.cur(st, mh), m, sto(sel(vc.cur(st, mh), m), k, "true")), fr)
 	vc.setCompF(st, mv, sto(vc.cur(st, mv), m, sto(sel(vc.cur(st, mv), m), k, v)), fr)
@@ -1062,7 +1062,8 @@ func (vc *FnVC) doLookup(x *ssa.Lookup, st *State) {
 		has := vc.mapHas(st, u, m, k)
 		get := vc.mapGet(st, u, m, k)
 		// a present key implies a non-empty map
-		vc.assume(implies(has, "(> "+sel(vc.cur(st, "ML"), m)+" 0)"))
+		mhx, _, _, _ := vc.mapComps(u)
+		vc.assume(implies(has, "(> "+sel(vc.cur(st, mlOf(mhx)), m)+" 0)"))
 		if g := globalRoot(x.X); g != nil && g.Pkg != nil && vc.prog.cs.MapNonNil[g.Pkg.Pkg.Path()+"::"+g.Name()] {
 			// registry declared `global mapvalues-nonnil`: a present key holds a non-nil value
 			// (A6: registrations pass non-nil values; module registration sites are scanned)
